@@ -685,8 +685,12 @@ pub fn child(input: &str, output: &str, start: usize, dir: &str) {
 	let started = Arc::new(AtomicU64::new(0));
 	let s2 = started.clone();
 	let out_path = output.to_string();
+	// one lock orders "the case got its result line" against "the watchdog gives the case a timeout line": never both
+	let line_lock = Arc::new(std::sync::Mutex::new(()));
+	let l2 = line_lock.clone();
 	std::thread::spawn(move || loop {
 		std::thread::sleep(std::time::Duration::from_millis(500));
+		let _g = l2.lock().unwrap();
 		let t0 = s2.load(Ordering::SeqCst);
 		if t0 != 0 {
 			let now = std::time::SystemTime::now().duration_since(std::time::UNIX_EPOCH).unwrap().as_millis() as u64;
@@ -710,6 +714,7 @@ pub fn child(input: &str, output: &str, start: usize, dir: &str) {
 		crate::MAX_REQ.store(0, Ordering::SeqCst);
 		INPUT_LEN.store(0, Ordering::SeqCst);
 		let (o, msg) = run_one(&rt, d, case);
+		let _g = line_lock.lock().unwrap();
 		started.store(0, Ordering::SeqCst);
 		// largest single allocation request of the case in KiB (0 = none of 1 MiB or more), and the largest input it was fed
 		let max_alloc_kib = (crate::MAX_REQ.load(Ordering::SeqCst) >> 10).min(i32::MAX as usize);
